@@ -7,7 +7,8 @@ Open Scope Z_scope.
 Lemma sites_as_expected :
   hash_sites = expected_hash_sites /\ guard_sites = expected_guard_sites /\
   server_hello_sites = expected_server_hello_sites /\ guard_positions = expected_guard_positions /\
-  client_hello_sites = expected_client_hello_sites /\ client_suite_sites = expected_client_suite_sites.
+  client_hello_sites = expected_client_hello_sites /\ client_suite_sites = expected_client_suite_sites /\
+  undriven_generator_calls = nil.
 Proof. vm_compute. repeat split; reflexivity. Qed.
 
 (* one row per (client maxVersion, negotiated version, tail class) in 768..772 x 768..772 x {1,2,0} *)
